@@ -3,7 +3,7 @@ from __future__ import annotations
 
 import importlib
 
-MODULES = ["repartition", "partitions", "layers", "decisions"]
+MODULES = ["repartition", "partitions", "layers", "decisions", "divisions"]
 
 
 def all_specs():
